@@ -766,6 +766,7 @@ func c16worker(c *hx.Ctx, depth int) int {
 	refValid := map[uint64]struct{}{}
 	sh := newC16shrinker(vals)
 	mine := 0 // definitions of this shard so far
+	recycledViolations := 0
 	c16defs(depth, func(ord int, d *simple.Def) bool {
 		if ord%c.Workers != c.Worker {
 			return true
@@ -816,6 +817,10 @@ func c16worker(c *hx.Ctx, depth int) int {
 				rep.Samples = append(rep.Samples, map[string]any{"carrier": "param", "definition": dt, "value": val.text, "reference_valid": want, "library_valid": lib.valid})
 			}
 		}
+		// second pass, recycling validators (the mode spec validation uses for defaults and examples),
+		// each slice value as the typed Go slice and as the []interface{} a JSON decoder yields: state
+		// left on a pooled validator by one shows in the other
+		recycledViolations += c16recycledPass(d, dt, vals, rep, recycledViolations)
 		mine++
 		return true
 	})
@@ -824,4 +829,92 @@ func c16worker(c *hx.Ctx, depth int) int {
 	rep.Inc("ref_valid_pairs", int64(len(refValid)))
 	hx.EmitWorkerReport(rep)
 	return 0
+}
+
+
+// c16untyped turns a typed slice into the []interface{} tree encoding/json would produce.
+func c16untyped(rv reflect.Value) interface{} {
+	if rv.Kind() != reflect.Slice {
+		return rv.Interface()
+	}
+	out := make([]interface{}, rv.Len())
+	for i := range out {
+		out[i] = c16untyped(rv.Index(i))
+	}
+	return out
+}
+
+func c16libRecycled(header bool, d *simple.Def, v interface{}) (o c16out) {
+	defer func() {
+		if r := recover(); r != nil {
+			o = c16out{panicked: panicText(r)}
+			resetPools()
+		}
+	}()
+	var res *validate.Result
+	if header {
+		res = validate.NewHeaderValidator("h", c16header(d), strfmt.Default, validate.WithRecycleValidators(true)).Validate(v)
+	} else {
+		res = validate.NewParamValidator(c16param(d), strfmt.Default, validate.WithRecycleValidators(true)).Validate(v)
+	}
+	if res == nil {
+		return c16out{nilResult: true}
+	}
+	return c16out{valid: res.IsValid(), errs: hx.SortedMsgs(res.Errors)}
+}
+
+func c16recycledPass(d *simple.Def, dt string, vals []c16value, rep *hx.Report, already int) int {
+	found := 0
+	if d.Type != "array" {
+		return 0
+	}
+	prev := map[bool]interface{}{}
+	for _, val := range vals {
+		if val.v == nil {
+			continue
+		}
+		rv := reflect.ValueOf(val.v)
+		if rv.Kind() != reflect.Slice {
+			continue
+		}
+		for _, header := range []bool{false, true} {
+			if !c16inDomain(header, d, val.v) {
+				continue
+			}
+			want, why := simple.Check(d, val.v, strfmt.Default)
+			// order of calls on the pooled objects: typed(other kind) ; untyped(this) ; typed(this)
+			if prev[header] != nil {
+				c16libRecycled(header, d, prev[header])
+			}
+			prev[header] = val.v
+			for vi, lv := range []interface{}{c16untyped(rv), val.v} {
+				rep.Inc("evaluations", 1)
+				rep.Inc("evaluations_recycled", 1)
+				lib := c16libRecycled(header, d, lv)
+				bad := ""
+				switch {
+				case lib.panicked != "":
+					bad = "library panics: " + lib.panicked
+				case lib.nilResult:
+					bad = "no result for a non-nil value"
+				case lib.valid != want:
+					bad = fmt.Sprintf("library valid=%v, simple-schema reference valid=%v (%s)", lib.valid, want, why)
+				}
+				if bad == "" || already+found >= 6 {
+					continue
+				}
+				found++
+				form := "typed slice"
+				if vi == 0 {
+					form = "the same value as []interface{}, after a typed slice of another kind"
+				}
+				rep.AddViolation(hx.Violation{
+					Signature: "recycled: " + c16sig(header, d, val.v) + " (" + form + ")",
+					What:      fmt.Sprintf("%s with a recycling validator, %s: %s", c16sig(header, d, val.v), form, bad),
+					Replay:    map[string]any{"carrier": c16carrier(header), "definition": dt, "value": val.text, "form": form},
+				})
+			}
+		}
+	}
+	return found
 }
